@@ -126,6 +126,7 @@ func (self *Fork) isStrictVolatile() bool {
 }
 
 func (self *Fork) partialVdrKill() (*VDRKillReport, bool) {
+	util.VerifPoint("vdr:partial:begin", self.fqname)
 	self.storageLock.Lock()
 	defer self.storageLock.Unlock()
 	if state := self.getState(); state.IsFailed() {
@@ -290,6 +291,7 @@ func (self *Fork) vdrKillSome(partial *PartialVdrKillReport, done bool) (*VDRKil
 	util.EnterCriticalSection()
 	defer util.ExitCriticalSection()
 	for _, fpath := range collapsedPaths {
+		util.VerifPoint("vdr:remove:some", fpath, self.fqname)
 		if err := os.RemoveAll(fpath); err != nil {
 			partial.Errors = append(partial.Errors, err.Error())
 		}
@@ -298,6 +300,7 @@ func (self *Fork) vdrKillSome(partial *PartialVdrKillReport, done bool) (*VDRKil
 	event.Timestamp = time.Now()
 	partial.Timestamp = WallClockTime(event.Timestamp)
 
+	util.VerifPoint("vdr:some:removed", self.fqname)
 	if len(self.fileParamMap) == 0 || done || len(self.filePostNodes) == 0 {
 		partial.VDRKillReport.mergeEvents()
 		self.metadata.Write(VdrKill, &partial.VDRKillReport)
@@ -308,6 +311,7 @@ func (self *Fork) vdrKillSome(partial *PartialVdrKillReport, done bool) (*VDRKil
 		}
 		return &partial.VDRKillReport, true
 	} else {
+		util.VerifPoint("vdr:partial:write", self.fqname, "some")
 		self.writePartialKill(partial)
 		if self.node.top.rt.Config.Debug {
 			util.LogInfo("storage",
@@ -731,6 +735,7 @@ func (self *Fork) cleanSplitTemp(partial *PartialVdrKillReport) *PartialVdrKillR
 			defer util.ExitCriticalSection()
 		}
 		if td := self.split_metadata.TempDir(); td != "" {
+			util.VerifPoint("vdr:remove:split_tmp", td, self.fqname)
 			if err := os.RemoveAll(self.split_metadata.TempDir()); err != nil {
 				partial.Errors = append(partial.Errors, err.Error())
 			}
@@ -740,6 +745,7 @@ func (self *Fork) cleanSplitTemp(partial *PartialVdrKillReport) *PartialVdrKillR
 			}
 		}
 
+		util.VerifPoint("vdr:partial:write", self.fqname, "split")
 		self.writePartialKill(partial)
 		return partial
 	}
@@ -830,6 +836,7 @@ func (self *Fork) cleanChunkTemp(partial *PartialVdrKillReport) *PartialVdrKillR
 
 	for _, chunk := range self.chunks {
 		if td := chunk.metadata.TempDir(); td != "" {
+			util.VerifPoint("vdr:remove:chunk_tmp", td, self.fqname)
 			if err := os.RemoveAll(td); err != nil {
 				partial.Errors = append(partial.Errors, err.Error())
 			}
@@ -840,6 +847,7 @@ func (self *Fork) cleanChunkTemp(partial *PartialVdrKillReport) *PartialVdrKillR
 		partial.Events = append(partial.Events, &cleanupEvent)
 	}
 
+	util.VerifPoint("vdr:partial:write", self.fqname, "chunks")
 	self.writePartialKill(partial)
 	return partial
 }
@@ -916,6 +924,7 @@ func (self *Fork) cleanJoinTemp(partial *PartialVdrKillReport) *PartialVdrKillRe
 			defer util.ExitCriticalSection()
 		}
 		if td := self.join_metadata.TempDir(); td != "" {
+			util.VerifPoint("vdr:remove:join_tmp", td, self.fqname)
 			if err := os.RemoveAll(td); err != nil {
 				partial.Errors = append(partial.Errors, err.Error())
 			}
@@ -925,6 +934,7 @@ func (self *Fork) cleanJoinTemp(partial *PartialVdrKillReport) *PartialVdrKillRe
 			}
 		}
 
+		util.VerifPoint("vdr:partial:write", self.fqname, "join")
 		self.writePartialKill(partial)
 
 		return partial
@@ -986,6 +996,7 @@ func (self *Fork) vdrKill(partialKill *PartialVdrKillReport) *VDRKillReport {
 	defer util.ExitCriticalSection()
 	// Actually delete the paths.
 	for _, p := range killPaths {
+		util.VerifPoint("vdr:remove:kill", p, self.fqname)
 		os.RemoveAll(p)
 	}
 	// update timestamp to mark actual kill time
@@ -1011,6 +1022,7 @@ func (self *Fork) vdrKill(partialKill *PartialVdrKillReport) *VDRKillReport {
 				self.node.GetFQName())
 		}
 	}
+	util.VerifPoint("vdr:final:write", self.fqname)
 	self.metadata.Write(VdrKill, killReport)
 	return killReport
 }
@@ -1137,6 +1149,7 @@ func NewForkStorageEvent(timestamp time.Time,
 }
 
 func (self *Pipestance) VDRKill() *VDRKillReport {
+	util.VerifPoint("vdr:pipestance:begin")
 	var killReports []*VDRKillReport
 	if nodes := self.node.allNodes(); len(nodes) > 0 {
 		killReports = make([]*VDRKillReport, 0, len(nodes))
@@ -1147,6 +1160,7 @@ func (self *Pipestance) VDRKill() *VDRKillReport {
 		}
 	}
 	killReport := mergeVDRKillReports(killReports)
+	util.VerifPoint("vdr:pipestance:write")
 	self.metadata.Write(VdrKill, killReport)
 	return killReport
 }
